@@ -134,7 +134,16 @@ fn dense_stmts(r: &mut Rng) -> String {
         match r.below(7) {
             0 => out.push_str(&format!("local _v = {path}\n")),
             1 => out.push_str(&format!("{path} = {}\n", arg(r))),
-            2 => out.push_str(&format!("{path}, {} = {}, 2\n", root(r), arg(r))),
+            2 => {
+                // several targets, each judged on its own: a target that goes through one or two calls first (never linted
+                // itself) must not change what is made of the others
+                let through_calls = *r.pick(&["g()().x", "G.f(1)(2).y", "a(1).x", "print()().n.f", "f():m().z", "(g)().x"]);
+                match r.below(3) {
+                    0 => out.push_str(&format!("{path}, {} = {}, 2\n", root(r), arg(r))),
+                    1 => out.push_str(&format!("{through_calls}, {path} = 1, {}\n", arg(r))),
+                    _ => out.push_str(&format!("{through_calls}, {}, {path} = 1, 2, {}\n", root(r), arg(r))),
+                }
+            }
             3 if !call.ends_with(|c: char| c.is_alphanumeric()) => out.push_str(&format!("{call}\n")),
             4 => out.push_str(&format!("local _w = {call}\n")),
             5 => out.push_str(&format!("{call}.z = 1\n")),
